@@ -86,6 +86,14 @@ def frame_consistency(index: RepoIndex, rep, rule: str, geo: Geometry, pipe: Pip
         U0, U1, V0, V1 = (x.subst(mpB) for x in (u0, u1, v0, v1))
         Hs, Ws = U1 - U0 + 1, V1 - V0 + 1
         m = geo.grid_rot[rot[1]]
+        for msg in getattr(m, 'special_bad', []):
+            rep.violation(rule, 'gym_gridverse/grid.py', geo.grid_rot_name[rot[1]],
+                          index.func('gym_gridverse/grid.py',
+                                     geo.grid_rot_name[rot[1]]).node.lineno,
+                          geo.grid_rot_name[rot[1]],
+                          f'heading {o}: the view is rotated by {geo.grid_rot_name[rot[1]]}, and '
+                          f'{msg}: a one-row or one-column view shows its cells in the wrong '
+                          f'order')
         dims = {'H': Hs, 'W': Ws}
         rho, gam = m.r.subst(dims), m.c.subst(dims)
         uu, vv = U0 + rho, V0 + gam
@@ -553,6 +561,21 @@ def wrappers(index, rep, rule) -> None:
         rep.check(ok, rule, OBS, name, f.node.lineno,
                   src(rets[0].value) if rets and rets[0].value is not None else name,
                   f'observation function {name} {why}', f'wrapper {name}')
+    # the function obtained by name is the one built for the requested view area
+    fac = index.func(OBS, 'factory')
+    from .c17 import memo_key_of_decorator
+    for d in fac.node.decorator_list:
+        dn = src(d.func if isinstance(d, ast.Call) else d)
+        if dn in ('functools.lru_cache', 'lru_cache', 'functools.cache', 'cache'):
+            continue
+        mk = memo_key_of_decorator(index, fac, d)
+        if mk is None:
+            raise AnalysisError(f'{OBS}: factory is wrapped by `{dn}`, a decorator outside the '
+                                f'grammar of the factory rules')
+        rep.check(mk[0], rule, OBS, 'factory', fac.node.lineno, f'@{dn}: key {mk[1]}',
+                  f'the observation factory is memoised on `{mk[1]}`, which leaves out '
+                  f'{"; ".join(mk[2])}: an environment asking for another view area observes '
+                  f'through the area of the first', 'observation factory memo key')
     ft = vis.get('fully_transparent')
     if ft is None:
         raise AnalysisError('visibility function fully_transparent vanished')
